@@ -15,7 +15,7 @@ func init() {
 	register(&Property{
 		ID:         "C14",
 		NeedSSA:    true,
-		Decided:    "Structural necessary conditions: (errflow) in every function of the library's import closure, the error result of every call that can carry a failure of the I/O medium (io/bufio/os interface methods and functions, and module functions that transitively contain such calls) is used: it is not discarded, not bound to `_`, not merely compared and then forgotten, and not overwritten on a loop path before being looked at; the accepted exceptions are frozen with one reason each; (close) (*writer).close performs header, flush, deferred bloom filters, footer and buffer flush in that order and returns the result of the last; (short) writePageTo compares the bytes written with the expected size and reports io.ErrShortWrite; the offset-tracking sink wrapper returns its callee's (n, err) unchanged and adds n to the offset on every path; (readat) the ReadAt helper clears an error only when the buffer was filled. (chunkeof) every stream-read error FilePages.ReadPage returns went through a function that compares the position with the size of the chunk section or turns io.EOF into io.ErrUnexpectedEOF; (copylen) the byte count of a copy from an io.NewSectionReader is used. (rollback) a function that appends, to a list of the writer, entries carrying the index len(writer.rowGroups) of the row group it is about to record, and that can return an error, truncates that list back to a length measured before its first append (in its body or a deferred closure). (freshcompare) no value whose every origin is fmt.Errorf / errors.New is compared with a package-level error by == or !=. (eofcount) where the io.EOF of a Read / ReadAt / io.ReadFull is tolerated (its edge reaches a return without error) the byte count of that call is used.",
+		Decided:    "Structural necessary conditions: (errflow) in every function of the library's import closure, the error result of every call that can carry a failure of the I/O medium (io/bufio/os interface methods and functions, and module functions that transitively contain such calls) is used: it is not discarded, not bound to `_`, not merely compared and then forgotten, and not overwritten on a loop path before being looked at; the accepted exceptions are frozen with one reason each; (close) (*writer).close performs header, flush, deferred bloom filters, footer and buffer flush in that order and returns the result of the last; (short) writePageTo compares the bytes written with the expected size and reports io.ErrShortWrite; the offset-tracking sink wrapper returns its callee's (n, err) unchanged and adds n to the offset on every path; (readat) the ReadAt helper clears an error only when the buffer was filled. (chunkeof) every stream-read error FilePages.ReadPage returns went through a function that compares the position with the size of the chunk section or turns io.EOF into io.ErrUnexpectedEOF, and such a function does not return the error it was handed — bare or wrapped with %w — on the edge where it found the chunk short; (copylen) the byte count of a copy from an io.NewSectionReader is used. (rollback) a function that appends, to a list of the writer, entries carrying the index len(writer.rowGroups) of the row group it is about to record, and that can return an error, truncates that list back to a length measured before its first append (in its body or a deferred closure). (freshcompare) no value whose every origin is fmt.Errorf / errors.New is compared with a package-level error by == or !=. (eofcount) where the io.EOF of a Read / ReadAt / io.ReadFull is tolerated (its edge reaches a return without error) the byte count of that call is used.",
 		NotDecided: "that each byte offset is actually reached; behaviour of foreign io.Writer/io.ReaderAt implementations; whether an error value that is used is also acted upon correctly (a condition inverted, a wrong variable of the same type returned from a used value).",
 		Assumptions: []string{
 			"an SSA error value with no referrers is a dropped error; go/ssa removes dead stores, so an assignment that is overwritten before any read also has no referrers",
@@ -504,6 +504,96 @@ func c14ChunkEOF(c *Ctx) {
 		}
 	}
 	scan(fn, 0)
+	// … and the vetting itself: where such a function finds that fewer bytes
+	// were consumed than the section holds, what it returns is not the error
+	// it was handed (an io.EOF), bare or wrapped with %w
+	for g := range scanned {
+		_ = g
+	}
+	for _, g := range p.ModuleSSAFuncs() {
+		if g.Origin() != nil || g.Blocks == nil || fnPkgPath(g) != modPath || g.Signature.Recv() == nil || fn.Signature.Recv() == nil ||
+			!types.Identical(g.Signature.Recv().Type(), fn.Signature.Recv().Type()) {
+			continue
+		}
+		var errParam *ssa.Parameter
+		for _, prm := range g.Params {
+			if isErrorType(prm.Type()) {
+				errParam = prm
+			}
+		}
+		if errParam == nil {
+			continue
+		}
+		for _, b := range g.Blocks {
+			if len(b.Instrs) == 0 {
+				continue
+			}
+			ifi, ok := b.Instrs[len(b.Instrs)-1].(*ssa.If)
+			if !ok {
+				continue
+			}
+			bo, ok := ifi.Cond.(*ssa.BinOp)
+			if !ok {
+				continue
+			}
+			sizeOn := 0 // 1: Size() is the right operand, 2: the left one
+			if cl, ok := bo.Y.(*ssa.Call); ok && calleeName(cl) == "io.(*SectionReader).Size" {
+				sizeOn = 1
+			}
+			if cl, ok := bo.X.(*ssa.Call); ok && calleeName(cl) == "io.(*SectionReader).Size" {
+				sizeOn = 2
+			}
+			if sizeOn == 0 {
+				continue
+			}
+			var short *ssa.BasicBlock
+			switch {
+			case (bo.Op == token.LSS && sizeOn == 1) || (bo.Op == token.GTR && sizeOn == 2) || bo.Op == token.NEQ:
+				short = b.Succs[0]
+			case (bo.Op == token.GEQ && sizeOn == 1) || (bo.Op == token.LEQ && sizeOn == 2) || bo.Op == token.EQL:
+				short = b.Succs[1]
+			default:
+				continue
+			}
+			if len(short.Preds) != 1 {
+				continue
+			}
+			handsBack := ""
+			for _, ret := range returnsOf(g) {
+				if !short.Dominates(ret.Block()) || len(ret.Results) == 0 {
+					continue
+				}
+				rv, _ := retResult(ret, len(ret.Results)-1)
+				if rv == nil {
+					continue
+				}
+				var carries func(v ssa.Value, depth int) bool
+				carries = func(v ssa.Value, depth int) bool {
+					if depth > 4 {
+						return false
+					}
+					for _, o := range Origins(v, OriginOpts{}) {
+						if o.Val == ssa.Value(errParam) {
+							return true
+						}
+						if o.Kind == OrgCall {
+							for _, w := range wrapped(o.Call) {
+								if w == ssa.Value(errParam) || carries(w, depth+1) {
+									return true
+								}
+							}
+						}
+					}
+					return v == ssa.Value(errParam)
+				}
+				if carries(rv, 0) {
+					handsBack = p.Pos(ret.Pos())
+				}
+			}
+			c.Check(rule, FuncKey(g)+": a chunk found short is not reported with the error that was handed in", ifi.Cond.Pos(), handsBack == "",
+				FuncKey(g)+" finds that the source ended before the end of the column chunk and returns ("+handsBack+") the error it was given — the io.EOF of the stream — bare or wrapped with %w: errors.Is(err, io.EOF) holds for it, so CopyRows, ReadRowsFrom and the row path of WriteRowGroup take it for the end of the rows and report success with rows missing")
+		}
+	}
 	sort.Strings(bad)
 	c.Check(rule, "(*FilePages).ReadPage vets the io.EOF of its stream", fn.Pos(), len(bad) == 0 && n > 0, "(*FilePages).ReadPage returns the error of "+strings.Join(bad, ", ")+" as it is: when the source ends before the end of the column chunk its io.EOF is taken for the end of the pages and the remaining rows go missing without an error")
 	c.Stats[rule+".stream_errors_returned"] = n
